@@ -59,3 +59,7 @@ Section Spec.
 
   Definition spec_size : bool := len <=? bound.
 End Spec.
+
+(* what lossy counting does guarantee about the size: logarithmic in the number of buckets *)
+Definition spec_size_log (w : N) (hist : list K) (len : N) : bool :=
+  len <=? 2 * w * (N.log2 (N.of_nat (length hist) / w + 1) + 1).
